@@ -370,9 +370,17 @@ func cmdCheck(writeBaseline bool, argv []string) int {
 		for _, id := range bl0.Obligations {
 			gateStem[idStem(id)] = true
 		}
+		// frame obligations that did not exist when the baseline was taken are
+		// new writes: solved, so that a write outside a claimed frame is noticed
+		knownNotClaimed := map[string]bool{}
+		for _, nc := range bl0.NotClaimed {
+			if i := strings.LastIndex(nc, " ["); i > 0 {
+				knownNotClaimed[nc[:i]] = true
+			}
+		}
 		toSolve = nil
 		for _, o := range obls {
-			if want[o.ID] || missingFK[o.Func+"#"+o.Kind] || ((o.Kind == "reach" || o.Kind == "send" || o.Kind == "inv-pres" || o.Kind == "inv-entry" || o.Kind == "cb-pres" || o.Kind == "cb-entry") && gateStem[idStem(o.ID)]) {
+			if want[o.ID] || missingFK[o.Func+"#"+o.Kind] || (o.Kind == "frame" && !knownNotClaimed[o.ID]) || ((o.Kind == "reach" || o.Kind == "send" || o.Kind == "inv-pres" || o.Kind == "inv-entry" || o.Kind == "cb-pres" || o.Kind == "cb-entry") && gateStem[idStem(o.ID)]) {
 				toSolve = append(toSolve, o)
 			}
 		}
@@ -552,6 +560,21 @@ func cmdCheck(writeBaseline bool, argv []string) int {
 			notClaimedAtBaseline[nc[:i]] = true
 		}
 	}
+	// functions whose frame was intact when the baseline was taken (no frame
+	// obligation among the not-claimed ones)
+	contractOfFunc := map[string]*FuncContract{}
+	framedAtBaseline := map[string]bool{}
+	for _, r := range results {
+		if r.Contract != nil {
+			contractOfFunc[shortName(r.Name)] = r.Contract
+			framedAtBaseline[shortName(r.Name)] = true
+		}
+	}
+	for nc := range notClaimedAtBaseline {
+		if strings.Contains(nc, "#frame#") {
+			framedAtBaseline[nc[:strings.Index(nc, "#frame#")]] = false
+		}
+	}
 	// baseline obligations that vanished: acceptable only if the obligations
 	// that replaced them (same function and kind) all discharge
 	var undecided []string
@@ -575,6 +598,11 @@ func cmdCheck(writeBaseline bool, argv []string) int {
 		}
 		if len(missingByFuncKind[fk]) > 0 {
 			viols = append(viols, viol{o, o.ID, o.Status + " (replaces baseline obligation " + missingByFuncKind[fk][0] + ")"})
+		} else if fc := contractOfFunc[o.Func]; o.Kind == "frame" && fc != nil && fc.HasAssigns && !fc.Trusted && clauseTagged(fc, prop) && framedAtBaseline[o.Func] {
+			// the function's assigns clause is part of its claimed contract and
+			// every write it made when the baseline was taken stayed inside it:
+			// a new write outside the frame is a new instance of that clause
+			viols = append(viols, viol{o, o.ID, o.Status + " (write outside the claimed frame of " + o.Func + ")"})
 		} else if (o.Kind == "reach" || o.Kind == "send" || o.Kind == "inv-pres" || o.Kind == "inv-entry" || o.Kind == "cb-pres" || o.Kind == "cb-entry") && inBL[idStem(o.ID)] {
 			// a gate clause that is claimed applies to every statement it matches:
 			// a new matching statement is a new instance of the claimed clause
